@@ -1630,6 +1630,9 @@ class Comparator(BinaryOperator):
         self._eval_parent_ = parent
 
         if self._id_ in sources:
+            # the result for these bindings is part of the bindings. The flag of the node belongs to whatever was compared
+            # last, which can be another candidate or another evaluation when this comparison is used more than once.
+            self._is_false_ = not sources[self._id_].value
             yield OperationResult(sources, self._is_false_, self)
             return
 
